@@ -16,6 +16,7 @@ import (
 	"go/token"
 	"os"
 	"path/filepath"
+	"reflect"
 	"sort"
 	"strings"
 )
@@ -23,50 +24,67 @@ import (
 type target struct {
 	dir, recv, fn, lean string
 	full                bool // also the text of every simple statement: the arithmetic forks, where a changed operand is a changed result
+	loops               bool // also the header of every `for` and every increment/decrement: the digit recodings and the table-driven multiplications
 }
 
 var targets = []target{
-	{"tokens/type3", "RateLimitedAttester", "innerVerifyRequest", "attester_innerVerifyRequest", false},
-	{"tokens/type3", "RateLimitedAttester", "VerifyRequest", "attester_VerifyRequest", false},
-	{"tokens/type3", "RateLimitedAttester", "FinalizeIndex", "attester_FinalizeIndex", false},
-	{"tokens/type3", "", "computeIndex", "computeIndex", false},
-	{"tokens/type3", "RateLimitedIssuer", "Evaluate", "issuer3_Evaluate", false},
-	{"tokens/type3", "", "decryptOriginTokenRequest", "decryptOriginTokenRequest", false},
-	{"tokens/type3", "RateLimitedTokenRequestState", "FinalizeToken", "client3_FinalizeToken", false},
-	{"tokens/type1", "BasicPrivateIssuer", "Evaluate", "issuer1_Evaluate", false},
-	{"tokens/type1", "BasicPrivateIssuer", "Verify", "issuer1_Verify", false},
-	{"tokens/type1", "BasicPrivateTokenRequestState", "FinalizeToken", "client1_FinalizeToken", false},
-	{"tokens/type2", "BasicPublicIssuer", "Evaluate", "issuer2_Evaluate", false},
-	{"tokens/type2", "BasicPublicTokenRequestState", "FinalizeToken", "client2_FinalizeToken", false},
-	{"tokens/type5", "BatchedPrivateIssuer", "Evaluate", "issuer5_Evaluate", false},
-	{"tokens/type5", "BatchedPrivateIssuer", "Verify", "issuer5_Verify", false},
-	{"tokens/type5", "BatchedPrivateTokenRequestState", "FinalizeTokens", "client5_FinalizeTokens", false},
-	{"tokens/batched", "BasicBatchedIssuer", "EvaluateBatch", "batch_EvaluateBatch", false},
-	{"tokens/batched", "", "NewBasicBatchedIssuer", "batch_NewBasicBatchedIssuer", false},
+	{"tokens/type3", "RateLimitedAttester", "innerVerifyRequest", "attester_innerVerifyRequest", false, false},
+	{"tokens/type3", "RateLimitedAttester", "VerifyRequest", "attester_VerifyRequest", false, false},
+	{"tokens/type3", "RateLimitedAttester", "FinalizeIndex", "attester_FinalizeIndex", false, false},
+	{"tokens/type3", "", "computeIndex", "computeIndex", false, false},
+	{"tokens/type3", "RateLimitedIssuer", "Evaluate", "issuer3_Evaluate", false, false},
+	{"tokens/type3", "", "decryptOriginTokenRequest", "decryptOriginTokenRequest", false, false},
+	{"tokens/type3", "RateLimitedTokenRequestState", "FinalizeToken", "client3_FinalizeToken", false, false},
+	{"tokens/type1", "BasicPrivateIssuer", "Evaluate", "issuer1_Evaluate", false, false},
+	{"tokens/type1", "BasicPrivateIssuer", "Verify", "issuer1_Verify", false, false},
+	{"tokens/type1", "BasicPrivateTokenRequestState", "FinalizeToken", "client1_FinalizeToken", false, false},
+	{"tokens/type2", "BasicPublicIssuer", "Evaluate", "issuer2_Evaluate", false, false},
+	{"tokens/type2", "BasicPublicTokenRequestState", "FinalizeToken", "client2_FinalizeToken", false, false},
+	{"tokens/type5", "BatchedPrivateIssuer", "Evaluate", "issuer5_Evaluate", false, false},
+	{"tokens/type5", "BatchedPrivateIssuer", "Verify", "issuer5_Verify", false, false},
+	{"tokens/type5", "BatchedPrivateTokenRequestState", "FinalizeTokens", "client5_FinalizeTokens", false, false},
+	{"tokens/batched", "BasicBatchedIssuer", "EvaluateBatch", "batch_EvaluateBatch", false, false},
+	{"tokens/batched", "", "NewBasicBatchedIssuer", "batch_NewBasicBatchedIssuer", false, false},
 	// the ECDSA fork (C12, C13) and the Ed25519 fork's top level (C14, C15): statement by statement
-	{"ecdsa", "", "hashToInt", "ecdsa_hashToInt", true},
-	{"ecdsa", "", "fermatInverse", "ecdsa_fermatInverse", true},
-	{"ecdsa", "", "randFieldElement", "ecdsa_randFieldElement", true},
-	{"ecdsa", "", "CreateKey", "ecdsa_CreateKey", true},
-	{"ecdsa", "", "GenerateKey", "ecdsa_GenerateKey", true},
-	{"ecdsa", "", "hashBlind", "ecdsa_hashBlind", true},
-	{"ecdsa", "", "BlindPublicKeyWithContext", "ecdsa_BlindPublicKeyWithContext", true},
-	{"ecdsa", "", "UnblindPublicKeyWithContext", "ecdsa_UnblindPublicKeyWithContext", true},
-	{"ecdsa", "", "BlindKeySignWithContext", "ecdsa_BlindKeySignWithContext", true},
-	{"ecdsa", "", "Sign", "ecdsa_Sign", true},
-	{"ecdsa", "", "signGeneric", "ecdsa_signGeneric", true},
-	{"ecdsa", "", "SignASN1", "ecdsa_SignASN1", true},
-	{"ecdsa", "", "Verify", "ecdsa_Verify", true},
-	{"ecdsa", "", "verifyGeneric", "ecdsa_verifyGeneric", true},
-	{"ecdsa", "", "VerifyASN1", "ecdsa_VerifyASN1", true},
-	{"ed25519", "", "GenerateKey", "ed_GenerateKey", true},
-	{"ed25519", "", "newKeyFromSeed", "ed_newKeyFromSeed", true},
-	{"ed25519", "", "signInternal", "ed_signInternal", true},
-	{"ed25519", "", "sign", "ed_sign", true},
-	{"ed25519", "", "Verify", "ed_Verify", true},
-	{"ed25519", "", "BlindPublicKeyWithContext", "ed_BlindPublicKeyWithContext", true},
-	{"ed25519", "", "UnblindPublicKeyWithContext", "ed_UnblindPublicKeyWithContext", true},
-	{"ed25519", "", "blindKeySign", "ed_blindKeySign", true},
+	{"ecdsa", "", "hashToInt", "ecdsa_hashToInt", true, false},
+	{"ecdsa", "", "fermatInverse", "ecdsa_fermatInverse", true, false},
+	{"ecdsa", "", "randFieldElement", "ecdsa_randFieldElement", true, false},
+	{"ecdsa", "", "CreateKey", "ecdsa_CreateKey", true, false},
+	{"ecdsa", "", "GenerateKey", "ecdsa_GenerateKey", true, false},
+	{"ecdsa", "", "hashBlind", "ecdsa_hashBlind", true, false},
+	{"ecdsa", "", "BlindPublicKeyWithContext", "ecdsa_BlindPublicKeyWithContext", true, false},
+	{"ecdsa", "", "UnblindPublicKeyWithContext", "ecdsa_UnblindPublicKeyWithContext", true, false},
+	{"ecdsa", "", "BlindKeySignWithContext", "ecdsa_BlindKeySignWithContext", true, false},
+	{"ecdsa", "", "Sign", "ecdsa_Sign", true, false},
+	{"ecdsa", "", "signGeneric", "ecdsa_signGeneric", true, false},
+	{"ecdsa", "", "SignASN1", "ecdsa_SignASN1", true, false},
+	{"ecdsa", "", "Verify", "ecdsa_Verify", true, false},
+	{"ecdsa", "", "verifyGeneric", "ecdsa_verifyGeneric", true, false},
+	{"ecdsa", "", "VerifyASN1", "ecdsa_VerifyASN1", true, false},
+	{"ed25519", "", "GenerateKey", "ed_GenerateKey", true, false},
+	{"ed25519", "", "newKeyFromSeed", "ed_newKeyFromSeed", true, false},
+	{"ed25519", "", "signInternal", "ed_signInternal", true, false},
+	{"ed25519", "", "sign", "ed_sign", true, false},
+	{"ed25519", "", "Verify", "ed_Verify", true, false},
+	{"ed25519", "", "BlindPublicKeyWithContext", "ed_BlindPublicKeyWithContext", true, false},
+	{"ed25519", "", "UnblindPublicKeyWithContext", "ed_UnblindPublicKeyWithContext", true, false},
+	{"ed25519", "", "blindKeySign", "ed_blindKeySign", true, false},
+	// the digit recodings and the table-driven scalar multiplications of the internal package (C14, C15): every statement and loop header
+	{dir: "ed25519/internal/edwards25519", recv: "Scalar", fn: "signedRadix16", lean: "sc_signedRadix16", full: true, loops: true},
+	{dir: "ed25519/internal/edwards25519", recv: "Scalar", fn: "nonAdjacentForm", lean: "sc_nonAdjacentForm", full: true, loops: true},
+	{dir: "ed25519/internal/edwards25519", recv: "", fn: "basepointTable", lean: "sm_basepointTable", full: true, loops: true},
+	{dir: "ed25519/internal/edwards25519", recv: "", fn: "basepointNafTable", lean: "sm_basepointNafTable", full: true, loops: true},
+	{dir: "ed25519/internal/edwards25519", recv: "Point", fn: "ScalarBaseMult", lean: "sm_ScalarBaseMult", full: true, loops: true},
+	{dir: "ed25519/internal/edwards25519", recv: "Point", fn: "ScalarMult", lean: "sm_ScalarMult", full: true, loops: true},
+	{dir: "ed25519/internal/edwards25519", recv: "Point", fn: "VarTimeDoubleScalarBaseMult", lean: "sm_VarTimeDoubleScalarBaseMult", full: true, loops: true},
+	{dir: "ed25519/internal/edwards25519", recv: "projLookupTable", fn: "FromP3", lean: "tb_proj_FromP3", full: true, loops: true},
+	{dir: "ed25519/internal/edwards25519", recv: "affineLookupTable", fn: "FromP3", lean: "tb_affine_FromP3", full: true, loops: true},
+	{dir: "ed25519/internal/edwards25519", recv: "nafLookupTable5", fn: "FromP3", lean: "tb_naf5_FromP3", full: true, loops: true},
+	{dir: "ed25519/internal/edwards25519", recv: "nafLookupTable8", fn: "FromP3", lean: "tb_naf8_FromP3", full: true, loops: true},
+	{dir: "ed25519/internal/edwards25519", recv: "projLookupTable", fn: "SelectInto", lean: "tb_proj_SelectInto", full: true, loops: true},
+	{dir: "ed25519/internal/edwards25519", recv: "affineLookupTable", fn: "SelectInto", lean: "tb_affine_SelectInto", full: true, loops: true},
+	{dir: "ed25519/internal/edwards25519", recv: "nafLookupTable5", fn: "SelectInto", lean: "tb_naf5_SelectInto", full: true, loops: true},
+	{dir: "ed25519/internal/edwards25519", recv: "nafLookupTable8", fn: "SelectInto", lean: "tb_naf8_SelectInto", full: true, loops: true},
 }
 
 func die(format string, a ...any) {
@@ -225,7 +243,17 @@ func main() {
 				}
 				add("}")
 			case *ast.ForStmt:
-				add("for {")
+				if t.loops {
+					part := func(n ast.Node) string {
+						if n == nil || reflect.ValueOf(n).IsNil() {
+							return ""
+						}
+						return full(p.fset, n)
+					}
+					add("for %s; %s; %s {", part(s.Init), part(s.Cond), part(s.Post))
+				} else {
+					add("for {")
+				}
 				walk(s.Body)
 				add("}")
 			case *ast.RangeStmt:
@@ -292,7 +320,10 @@ func main() {
 			case *ast.BranchStmt:
 				add("%s", s.Tok.String())
 			case *ast.IncDecStmt:
-				// counters carry no decision
+				// counters carry no decision (except where the loops themselves are pinned)
+				if t.loops {
+					add("stmt %s", full(p.fset, s))
+				}
 			case *ast.DeclStmt:
 				if t.full {
 					add("stmt %s", full(p.fset, s))
